@@ -4,6 +4,7 @@ calls, attribute access, subscripts, isinstance, sqrt, E-notation and the displa
 operator fragment.
 -/
 import MambaVerif.Lemmas.PyExt
+import MambaVerif.Lemmas.PyMain
 
 namespace MV
 
@@ -191,5 +192,240 @@ theorem pr_headOpen (e : CE) (rest : List PTok) : HeadOpen (pr e ++ rest) := by
     rw [hp] at h
     simp at h; subst h
     exact goodHead_open hg
+
+end MV
+
+namespace MV
+
+theorem noPrefix_of_head {ts : List PTok} {t : PTok} (h : ts.head? = some t)
+    (hg : (∃ s, t = .word s) ∨ t = .lpar ∨ t = .lbr ∨ t = .lcur) (j : Nat) : NoPrefixAt j ts := by
+  cases ts with
+  | nil => simp at h
+  | cons t' r =>
+    simp at h; subst h
+    rcases hg with ⟨s, rfl⟩ | rfl | rfl | rfl <;> simp [NoPrefixAt, prefixForm, headIsLambda]
+
+theorem head_append {a : List PTok} {t : PTok} (h : a.head? = some t) (b : List PTok) :
+    (a ++ b).head? = some t := by
+  cases a with
+  | nil => simp at h
+  | cons x xs => simpa using h
+
+theorem noPrefix_append_of {a : List PTok} (b : List PTok) {j : Nat} (hne : a ≠ [])
+    (h : NoPrefixAt j (a ++ [])) : NoPrefixAt j (a ++ b) := by
+  cases a with
+  | nil => exact absurd rfl hne
+  | cons x xs =>
+    simp only [List.append_nil] at h
+    obtain ⟨h1, h2⟩ := h
+    refine ⟨?_, ?_⟩
+    · cases x <;> simp [prefixForm] at h1 ⊢
+      exact h1
+    · cases x <;> simp [headIsLambda] at h2 ⊢
+
+/-- the printed form does not start with a prefix form (unary operator or `lambda`) of a level below its own -/
+theorem head_facts2 : (e : CE) → ∀ (rest : List PTok) (j : Nat), 1 ≤ j → j < e.prec → NoPrefixAt j (pr e ++ rest)
+  | .atom s, rest, j, _, _ => by simp [pr_atom, NoPrefixAt, prefixForm, headIsLambda]
+  | .int s, rest, j, _, _ => by simp [pr_int, NoPrefixAt, prefixForm, headIsLambda]
+  | .enum n e, rest, j, _, _ => by rw [pr_enum]; simp [NoPrefixAt, prefixForm, headIsLambda]
+  | .un u x, rest, j, _, hj => by
+    simp only [CE.prec] at hj
+    simp only [pr_un, List.cons_append, List.nil_append, NoPrefixAt, prefixForm, headIsLambda, and_true]
+    by_cases h : u = .Not
+    · subst h; rw [un_prec_not] at hj
+      have : ¬ j = 5 := by omega
+      simp [this]
+    · rw [un_prec_other u h] at hj
+      have : ¬ j = 13 := by omega
+      simp [h, this]
+  | .bin op l r, rest, j, hj1, hj => by
+    simp only [CE.prec, prec_eq_level] at hj
+    rw [pr_bin, List.append_assoc, List.append_assoc, operand_unfold]
+    split
+    · simp [parens, NoPrefixAt, prefixForm, headIsLambda]
+    · rename_i hbare
+      have hlm : pyLevel op ≤ op.sides.1 := by
+        rcases level_kind op with h | h | h
+        · exact (sides_left op h).1
+        · have := (sides_cmp op h).1; omega
+        · have := (sides_pow op h).1; omega
+      exact head_facts2 l _ j hj1 (by omega)
+  | .ternary c t e, rest, j, hj1, hj => by
+    simp only [CE.prec, precTernary_eq] at hj
+    rw [pr_ternary]
+    simp only [List.append_assoc]
+    rw [operand_unfold]
+    split
+    · simp [parens, NoPrefixAt, prefixForm, headIsLambda]
+    · rename_i hbare
+      exact head_facts2 t _ j hj1 (by omega)
+  | .lambda args body, rest, j, hj1, hj => by
+    simp only [CE.prec, precLambda_eq] at hj; omega
+  | .call f args, rest, j, hj1, hj => by
+    rw [pr_call]
+    simp only [List.append_assoc]
+    rcases primary_cases f with ⟨ts, h⟩ | ⟨h, hp, _⟩
+    · rw [h]; simp [NoPrefixAt, prefixForm, headIsLambda]
+    · rw [h]; exact head_facts2 f _ j hj1 (by simp only [CE.prec, precAtom_eq] at hj; omega)
+  | .attr o p, rest, j, hj1, hj => by
+    rw [pr_attr]
+    simp only [List.append_assoc]
+    rcases primary_cases o with ⟨ts, h⟩ | ⟨h, hp, _⟩
+    · rw [h]; simp [NoPrefixAt, prefixForm, headIsLambda]
+    · rw [h]; exact head_facts2 o _ j hj1 (by simp only [CE.prec, precAtom_eq] at hj; omega)
+  | .index i r, rest, j, hj1, hj => by
+    rw [pr_index]
+    simp only [List.append_assoc]
+    rcases primary_cases i with ⟨ts, h⟩ | ⟨h, hp, _⟩
+    · rw [h]; simp [NoPrefixAt, prefixForm, headIsLambda]
+    · rw [h]; exact head_facts2 i _ j hj1 (by simp only [CE.prec, precAtom_eq] at hj; omega)
+  | .isA l r, rest, j, _, _ => by rw [pr_isA]; simp [NoPrefixAt, prefixForm, headIsLambda]
+  | .sqrt e, rest, j, _, _ => by rw [pr_sqrt]; simp [NoPrefixAt, prefixForm, headIsLambda]
+  | .tuple es, rest, j, _, _ => by rw [pr_tuple]; simp [NoPrefixAt, prefixForm, headIsLambda]
+  | .list es, rest, j, _, _ => by rw [pr_list]; simp [NoPrefixAt, prefixForm, headIsLambda]
+  | .set es, rest, j, _, _ => by rw [pr_set]; simp [NoPrefixAt, prefixForm, headIsLambda]
+
+theorem operand_head2 (x : CE) (min j : Nat) (hj1 : 1 ≤ j) (hj : j < min) (rest : List PTok) :
+    NoPrefixAt j (operand x min ++ rest) := by
+  rw [operand_unfold]
+  split
+  · simp [parens, NoPrefixAt, prefixForm, headIsLambda]
+  · exact head_facts2 x rest j hj1 (by omega)
+
+/-- an operand, bare or parenthesised, is parsed back at any level up to its required minimum -/
+theorem operand_S2 (x : CE) (hS : SProp2 x) (min k : Nat) (hk1 : 1 ≤ k) (hk : k ≤ min) (hk15 : k ≤ 15)
+    (rest : List PTok) (out : PyAst × List PTok) (hstop : Stop (k + 1) rest)
+    (hna : ¬ (x.prec < min) → NonAssoc2 x rest)
+    (hc : Ev (fun m => cont m k (embed x) rest) out) :
+    Ev (fun m => parse m k (operand x min ++ rest)) out := by
+  rw [operand_unfold]
+  split
+  · -- parenthesised
+    have hb := full_prec_bounds x
+    have hin : Ev (fun m => parse m 1 (pr x ++ .rpar :: rest)) (embed x, .rpar :: rest) :=
+      hS 1 (.rpar :: rest) _ (Nat.le_refl _) hb.1 (stopAll_of_none .rpar rest rfl x 1)
+        (Ev_exit (fun t ht hc' => by simp at ht; subst ht; simp [contLevel] at hc'))
+    have hform : parens (pr x) ++ rest = .lpar :: (pr x ++ .rpar :: rest) := by simp [parens]
+    rw [hform]
+    by_cases hk' : k = 15
+    · subst hk'; exact Ev_paren hin hc
+    · have h15 : Ev (fun m => parse m 15 (.lpar :: (pr x ++ .rpar :: rest))) (embed x, rest) :=
+        Ev_paren hin (Ev_exit_of_stop (hstop.mono (by omega)))
+      exact Ev_descend (15 - k - 1) k 15 _ rest (embed x) out (by omega) (by omega)
+        (fun j _ _ => by simp [NoPrefixAt, prefixForm, headIsLambda]) h15 hstop hc
+  · rename_i hbare
+    exact hS k rest out hk1 (by omega) ⟨hstop, hna hbare⟩ hc
+
+/-- from the top level of an expression down to any lower level -/
+theorem lift_top2 (e : CE)
+    (htop : ∀ (rest : List PTok) (out : PyAst × List PTok), StopAt2 e.prec e rest →
+      Ev (fun m => cont m e.prec (embed e) rest) out → Ev (fun m => parse m e.prec (pr e ++ rest)) out) :
+    SProp2 e := by
+  intro k rest out hk1 hk hst hc
+  by_cases hkp : k = e.prec
+  · subst hkp; exact htop rest out hst hc
+  · have hb := full_prec_bounds e
+    have hp : Ev (fun m => parse m e.prec (pr e ++ rest)) (embed e, rest) :=
+      htop rest _ ⟨hst.1.mono (by omega), hst.2⟩ (Ev_exit_of_stop (hst.1.mono (by omega)))
+    exact Ev_descend (e.prec - k - 1) k e.prec _ rest (embed e) out (by omega) hb.2
+      (fun j hj1 hj2 => head_facts2 e rest j (by omega) hj2) hp hst.1 hc
+
+end MV
+
+namespace MV
+
+/-! ### the operator cases again, for the wider statement -/
+
+theorem top_word2 (s : String) (rest : List PTok) (out : PyAst × List PTok)
+    (hc : Ev (fun m => cont m 15 (.name s) rest) out) : Ev (fun m => parse m 15 ([.word s] ++ rest)) out :=
+  Ev_word hc
+
+theorem S_atom (s : String) : SProp2 (.atom s) :=
+  lift_top2 _ (fun rest out _ hc => by
+    simp only [CE.prec, precAtom_eq, pr_atom, embed] at hc ⊢; exact top_word2 s rest out hc)
+
+theorem S_int (s : String) : SProp2 (.int s) :=
+  lift_top2 _ (fun rest out _ hc => by
+    simp only [CE.prec, precAtom_eq, pr_int, embed] at hc ⊢; exact top_word2 s rest out hc)
+
+theorem top_un2 (u : UnOp) (x : CE) (hSx : SProp2 x)
+    (rest : List PTok) (out : PyAst × List PTok) (hst : StopAt2 (CE.un u x).prec (.un u x) rest)
+    (hc : Ev (fun m => cont m (CE.un u x).prec (embed (.un u x)) rest) out) :
+    Ev (fun m => parse m (CE.un u x).prec (pr (.un u x) ++ rest)) out := by
+  simp only [CE.prec] at hst hc ⊢
+  have hq : u.prec = 5 ∨ u.prec = 13 := by
+    by_cases h : u = .Not
+    · subst h; exact Or.inl un_prec_not
+    · exact Or.inr (un_prec_other u h)
+  have hpf : prefixForm u.prec (.uop u :: (operand x u.prec ++ rest)) = some (u, operand x u.prec ++ rest) := by
+    by_cases h : u = .Not
+    · subst h; simp [prefixForm, un_prec_not]
+    · simp [prefixForm, h, un_prec_other u h]
+  have hexit : ∀ (acc : PyAst), Ev (fun m => cont m u.prec acc rest) (acc, rest) := fun acc =>
+    Ev_exit (fun t _ => contLevel_ne t u.prec (by omega))
+  have hop : Ev (fun m => parse m u.prec (operand x u.prec ++ rest)) (embed x, rest) :=
+    operand_S2 x hSx u.prec u.prec (by omega) (Nat.le_refl _) (by omega) rest _ hst.1
+      (fun hb => ⟨fun _ => hst.1.mono (by omega), fun _ => hst.1.mono (by omega), fun h2 => by omega⟩) (hexit _)
+  have hout : out = (embed (.un u x), rest) := Ev.unique hc (hexit _)
+  rw [hout, pr_un]
+  have := Ev_prefix (by omega) hpf hop
+  simpa [embed] using this
+
+theorem top_bin2 (op : BinOp) (l r : CE) (hSl : SProp2 l) (hSr : SProp2 r)
+    (rest : List PTok) (out : PyAst × List PTok) (hst : StopAt2 (CE.bin op l r).prec (.bin op l r) rest)
+    (hc : Ev (fun m => cont m (CE.bin op l r).prec (embed (.bin op l r)) rest) out) :
+    Ev (fun m => parse m (CE.bin op l r).prec (pr (.bin op l r) ++ rest)) out := by
+  simp only [CE.prec, prec_eq_level] at hst hc ⊢
+  obtain ⟨hstop, hna6, hna14, _⟩ := hst
+  simp only [CE.prec, prec_eq_level] at hna6 hna14
+  have hlb := level_bounds op
+  have hform : pr (.bin op l r) ++ rest = operand l op.sides.1 ++ (.bop op :: (operand r op.sides.2 ++ rest)) := by
+    rw [pr_bin]; simp
+  rw [hform]
+  have hemb : embed (.bin op l r) = .bin op (embed l) (embed r) := by simp [embed]
+  rw [hemb] at hc
+  rcases level_kind op with hk | hk | hk
+  · -- left-associative level
+    obtain ⟨hlm, hrm⟩ := sides_left op hk
+    have hp := isLeft_cases hk
+    have hright : Ev (fun m => parse m (pyLevel op + 1) (operand r op.sides.2 ++ rest)) (embed r, rest) :=
+      operand_S2 r hSr op.sides.2 (pyLevel op + 1) (by omega) hrm (by omega) rest _ (hstop.mono (by omega))
+        (fun hb => ⟨fun h6 => hstop.mono (by omega), fun _ => hstop.mono (by omega), fun h2 => by omega⟩)
+        (Ev_exit_of_stop hstop)
+    exact operand_S2 l hSl op.sides.1 (pyLevel op) (by omega) hlm (by omega) _ out (stop_bop op _ _ (by omega))
+      (fun hb => ⟨fun h6 => stop_bop op _ _ (by omega), fun _ => stop_bop op _ _ (by omega), fun h2 => by omega⟩)
+      (Ev_left hk rfl hright hc)
+  · -- comparison
+    obtain ⟨hlm, hrm⟩ := sides_cmp op hk
+    rw [hk] at hc hstop ⊢
+    have hstop6 : Stop 6 rest := hna6 hk
+    have hleft : Ev (fun m => parse m 7 (operand l op.sides.1 ++ (.bop op :: (operand r op.sides.2 ++ rest))))
+        (embed l, .bop op :: (operand r op.sides.2 ++ rest)) :=
+      operand_S2 l hSl op.sides.1 7 (by omega) hlm (by omega) _ _ (stop_bop op _ _ (by omega))
+        (fun hb => ⟨fun h6 => by omega, fun _ => stop_bop op _ _ (by omega), fun h2 => by omega⟩)
+        (exit_bop op _ 7 _ (by omega))
+    have hright : Ev (fun m => parse m 7 (operand r op.sides.2 ++ rest)) (embed r, rest) :=
+      operand_S2 r hSr op.sides.2 7 (by omega) hrm (by omega) rest _ (hstop.mono (by omega))
+        (fun hb => ⟨fun h6 => by omega, fun _ => hstop.mono (by omega), fun h2 => by omega⟩)
+        (Ev_exit_of_stop hstop)
+    have hout : out = (.bin op (embed l) (embed r), rest) := Ev.unique hc (Ev_exit_of_stop hstop6)
+    rw [hout]
+    exact Ev_down (by omega) (operand_head2 l op.sides.1 6 (by omega) (by omega) _) hleft (Ev_cmp hk hright hstop6)
+  · -- power
+    obtain ⟨hlm, hrm⟩ := sides_pow op hk
+    rw [hk] at hc hstop ⊢
+    have hstop14 : Stop 14 rest := hna14 hk
+    have hleft : Ev (fun m => parse m 15 (operand l op.sides.1 ++ (.bop op :: (operand r op.sides.2 ++ rest))))
+        (embed l, .bop op :: (operand r op.sides.2 ++ rest)) :=
+      operand_S2 l hSl op.sides.1 15 (by omega) hlm (by omega) _ _ (stop_bop op _ _ (by omega))
+        (fun hb => ⟨fun h6 => by omega, fun h14 => by omega, fun h2 => by omega⟩)
+        (exit_bop op _ 15 _ (by omega))
+    have hright : Ev (fun m => parse m 13 (operand r op.sides.2 ++ rest)) (embed r, rest) :=
+      operand_S2 r hSr op.sides.2 13 (by omega) hrm (by omega) rest _ hstop14
+        (fun hb => ⟨fun h6 => by omega, fun _ => hstop14, fun h2 => by omega⟩)
+        (Ev_exit (fun t _ => contLevel_ne t 13 (by omega)))
+    have hout : out = (.bin op (embed l) (embed r), rest) := Ev.unique hc (Ev_exit_of_stop hstop14)
+    rw [hout]
+    exact Ev_down (by omega) (operand_head2 l op.sides.1 14 (by omega) (by omega) _) hleft (Ev_pow hk hright)
 
 end MV
